@@ -425,6 +425,27 @@ Proof.
 Qed.
 
 
+(** whatever encoding/json decodes into an [any] is supported, in every mode *)
+Lemma json_carrier_nn g : json_carrier g -> nn g.
+Proof. destruct 1; try exact I. exact Hs. Qed.
+
+Lemma json_carrier_sup : forall g, json_carrier g -> sup g.
+Proof.
+  fix IH 2. intros g H. destruct H as [|b|d|s Hs|xs Hxs|kvs Hkvs].
+  - constructor.
+  - constructor.
+  - constructor.
+  - constructor.
+  - constructor; [discriminate|]. induction Hxs as [|x r Hx Hr IHr]; constructor; [exact (IH x Hx) | exact IHr].
+  - constructor. induction Hkvs as [|kv r [Hk Hv] Hr IHr]; constructor; [|exact IHr].
+    split.
+    + destruct Hk as [k Hk]. rewrite Hk. discriminate.
+    + left. split; [exact (IH _ Hv) | intros _; apply json_carrier_nn; exact Hv].
+Qed.
+
+Lemma json_carrier_supported g : json_carrier g -> supported g.
+Proof. intros H. left. apply json_carrier_sup. exact H. Qed.
+
 (** * The theorems *)
 Variable uni : uclass.
 
@@ -620,7 +641,7 @@ Example C10_example_maps :
 Proof.
   split; [left; unfold prices_json; sup_go|].
   split; [left; unfold prices_go; sup_go|].
-  repeat split; vm_compute; reflexivity.
+  split; [vm_compute; reflexivity|]. split; vm_compute; reflexivity.
 Qed.
 
 (** * Carrier-dependences of the model: what [supported] and [in_fragment]
@@ -632,7 +653,7 @@ Definition D (z : Z) : gv := VDec (mkDec z 0).
 Definition differs (st : bool) (q : string) (d1 d2 : gv) (r1 r2 : outcome jv) : Prop :=
   absx st d1 = absx st d2 /\ oabs st (run q d1) = Some r1 /\ oabs st (run q d2) = Some r2.
 
-Ltac differ := unfold differs; repeat split; vm_compute; reflexivity.
+Ltac differ := unfold differs; split; [|split]; vm_compute; reflexivity.
 
 Definition n1 : jv := JNum (mkDec 1 0).
 Definition n0 : jv := JNum (mkDec 0 0).
@@ -750,7 +771,7 @@ Example refuted_in_fragment :
   forallb (fun q => negb (qfrag true false q))
     ["$.Sum()"; "$.Select(""$"")"; "$.RemoveKeysByPrefix(""b"")"]%string = true /\
   forallb (qfrag false false) ["$.a.Sum()"; "$.AsArray().a"; "$.Sum()"; "$.Select(""$"")"; "$.RemoveKeysByPrefix(""b"")"]%string = true.
-Proof. repeat split; vm_compute; reflexivity. Qed.
+Proof. split; [|split; [|split]]; vm_compute; reflexivity. Qed.
 
 (** ... and the functions outside every fragment: AsJSON, Sprintf and the
     Parse* family render or read carrier text by design *)
@@ -758,6 +779,15 @@ Example never_admitted :
   forallb (fun k => negb (allowed false false k) && negb (allowed true true k))
     ["AsJSON"; "Sprintf"; "ParseJSON"; "ParseXML"; "ParseYAML"; "ParseTOML"]%string = true.
 Proof. vm_compute. reflexivity. Qed.
+
+(** [in_fragment] (every fuel) for a parsed query *)
+Example C10_in_fragment_example : forall t,
+  parse_string uni_ascii (bs "$.items[@.qty.GreaterOrEqual(5)].name.First()") = Ok t ->
+  in_fragment true true uni_ascii (NTop t).
+Proof.
+  intros t H. vm_compute in H. injection H as <-. intros fuel.
+  do 12 (destruct fuel as [|fuel]; [vm_compute; reflexivity|]). vm_compute. reflexivity.
+Qed.
 
 Print Assumptions C10_relational.
 Print Assumptions C10_carrier_independent_fuel.
@@ -771,3 +801,6 @@ Print Assumptions supported_Rv.
 Print Assumptions C10_example_queries.
 Print Assumptions C10_example_by_theorem.
 Print Assumptions C10_example_maps.
+Print Assumptions json_carrier_supported.
+Print Assumptions C10_in_fragment_example.
+Print Assumptions refuted_in_fragment.
